@@ -1081,6 +1081,19 @@ class BuiltinsMixin:
             self.run.assume(z3.And(z3.Length(r) >= z3.Length(s.e), z3.Length(r) <= 3 * z3.Length(s.e), f(r) == r))
         return SStr(r, s.kind)
 
+    def m_text_translate(self, s, table):
+        table = self.resolve(table)
+        if isinstance(s, (str, bytes)) and isinstance(table, (bytes, dict)):
+            return s.translate(table)
+        if not isinstance(table, bytes) or len(table) != 256:
+            raise Unsupported("translate with a symbolic / non-bytes table")
+        import hashlib
+
+        f = z3.Function("translate[" + hashlib.sha1(table).hexdigest()[:10] + "]", z3.StringSort(), z3.StringSort())
+        r = f(s.e)
+        self.run.assume(z3.Length(r) == z3.Length(s.e))  # byte-wise substitution keeps the length
+        return SStr(r, s.kind)
+
     def m_text_isdigit(self, s):
         if isinstance(s, (str, bytes)):
             return s.isdigit()
